@@ -29,6 +29,7 @@ pub mod hir {
         ETuple { items: Vec<ExprId> },
         EArray { items: Vec<ExprId> },
         EGo { expr: ExprId },
+        EConstr { constructor: ConstructorRef, args: Vec<ExprId> },
     }
 }
 #[verifier::external_body] pub struct HirTable { _p: u64 }
@@ -183,7 +184,17 @@ pub open spec fn params_bound(params: Seq<(ast::AstIdent, ast::TypeExpr)>, env: 
 
 // ---- resolve_pat, identifier patterns: binder or constructor ----
 impl HirTable { pub uninterp spec fn pat_of(&self, id: hir::PatId) -> hir::Pat; }
-impl ast::Path { #[verifier::external_body] pub fn from_ident(ident: ast::AstIdent) -> (r: ast::Path) ensures r.is_ident(ident.0@) { unimplemented!() } pub uninterp spec fn is_ident(&self, n: Seq<char>) -> bool; }
+impl ast::Path {
+    #[verifier::external_body] pub fn from_ident(ident: ast::AstIdent) -> (r: ast::Path) ensures r.is_ident(ident.0@) { unimplemented!() }
+    // a path is a non-empty list of segments: how many there are, and the name of the last one
+    pub uninterp spec fn seg_len(&self) -> nat;
+    pub uninterp spec fn last_name(&self) -> Option<Seq<char>>;
+    pub open spec fn is_ident(&self, n: Seq<char>) -> bool { self.seg_len() == 1 && self.last_name() == Some(n) }
+    #[verifier::external_body] pub fn len(&self) -> (r: usize) ensures r == self.seg_len() { unimplemented!() }
+    #[verifier::external_body] pub fn vclone_path(&self) -> (r: ast::Path) ensures r == *self { unimplemented!() }
+    #[verifier::external_body] pub fn last_ident(&self) -> (r: Option<&ast::AstIdent>)
+        ensures r matches Some(i) ==> self.last_name() == Some(i.0@), r is None ==> self.last_name() is None { unimplemented!() }
+}
 impl NameResolution {
     // the constructor a (one-segment) path names in this package, if any: looked up in the PACKAGE-WIDE constructor index
     pub uninterp spec fn ctor_of(name: Seq<char>, ctx: &ResolutionContext) -> Option<hir::Path>;
@@ -210,3 +221,5 @@ pub uninterp spec fn import_checked(t: hir::TypeExpr) -> bool;        // produce
 pub open spec fn let_annotation_import_checked(e: hir::Expr) -> bool {
     e matches hir::Expr::ELet { annotation, .. } && (annotation matches Some(a) ==> import_checked(a))
 }
+
+#[verifier::external_body] pub fn path_clone(p: &ast::Path) -> (r: ast::Path) ensures r == *p { unimplemented!() }          // derived Clone: an identical copy
